@@ -68,9 +68,10 @@ def regexpp(regex: Any) -> str:
     try:
         evaluated = eval(output)  # noqa: S307
         re.compile(evaluated)
-    except SyntaxError:
+    except (SyntaxError, UnicodeEncodeError):
         # NOTE: not every text can be written as a raw string (backslashes
-        #   before both kinds of quotes): repr() always reads back
+        #   before both kinds of quotes, lone surrogates): repr() always
+        #   reads back
         return repr(pattern_text)
     except PatternError:
         # NOTE: a line break ends a comment of a verbose pattern; written as
